@@ -393,9 +393,35 @@ class Extractor:
             # display is cut to the display's length)
             g = e.generators[0]
             seq = self.ev(g.iter, env)
-            if seq[0] == "call" and seq[1] in ("zip", "builtins.zip") and any(a[0] == "tuple" for a in seq[2]) and not any(a[0] == "kw" for a in seq[2]):
-                n = min(len(a[1]) for a in seq[2] if a[0] == "tuple")
-                seq = ("tuple", tuple(("tuple", tuple(a[1][i] if a[0] == "tuple" else rebuild_node(("index", a, num(i))) for a in seq[2])) for i in range(n)))
+            def known_len(a):
+                # a display, or a call of a package function every return of which is a display of one length
+                if a[0] == "tuple":
+                    return len(a[1])
+                if a[0] == "call" and self.project is not None and isinstance(a[1], str) and a[1] in self.project.funcs:
+                    def own(nd):
+                        for ch in ast.iter_child_nodes(nd):
+                            if isinstance(ch, (ast.FunctionDef, ast.AsyncFunctionDef, ast.Lambda, ast.ClassDef)):
+                                continue
+                            yield ch
+                            yield from own(ch)
+                    rets = [r for r in own(self.project.funcs[a[1]].node) if isinstance(r, ast.Return)]
+                    def arity(v):
+                        if isinstance(v, ast.Tuple) and not any(isinstance(x, ast.Starred) for x in v.elts):
+                            return len(v.elts)
+                        # tuple(f(c) for c in (r, g, b)): as many as the display that is mapped
+                        if isinstance(v, ast.Call) and isinstance(v.func, ast.Name) and v.func.id == "tuple" and len(v.args) == 1 and not v.keywords \
+                                and isinstance(v.args[0], (ast.GeneratorExp, ast.ListComp)) and len(v.args[0].generators) == 1 and not v.args[0].generators[0].ifs \
+                                and isinstance(v.args[0].generators[0].iter, (ast.Tuple, ast.List)) and not any(isinstance(x, ast.Starred) for x in v.args[0].generators[0].iter.elts):
+                            return len(v.args[0].generators[0].iter.elts)
+                        return None
+                    lens = {arity(r.value) for r in rets}
+                    if rets and len(lens) == 1 and None not in lens and not any(isinstance(x, (ast.Yield, ast.YieldFrom)) for x in ast.walk(self.project.funcs[a[1]].node)):
+                        return lens.pop()
+                return None
+            if seq[0] == "call" and seq[1] in ("zip", "builtins.zip") and any(known_len(a) is not None for a in seq[2]) and not any(a[0] == "kw" for a in seq[2]):
+                n = min(known_len(a) for a in seq[2] if known_len(a) is not None)
+                # (components of a sequence that is not a display are taken the way an unpacking assignment takes them)
+                seq = ("tuple", tuple(("tuple", tuple(a[1][i] if a[0] == "tuple" else ("index", a, num(i)) for a in seq[2])) for i in range(n)))
             if seq[0] == "tuple":
                 out = []
                 for row in seq[1]:
